@@ -55,6 +55,23 @@ fn roundtrips(bytes: [u8; 32], rep: &mut Report, rng: &mut Rng) {
             if hx != want_hex || disp != want_hex {
                 v(rep, "to_hex", format!("to_hex/Display of {} gave {} / {}", want_hex, hx, disp));
             }
+            // format specifications: whatever a width / fill / precision does, the 64 digits must
+            // all be there (padding around them is tolerated, truncation is not)
+            let h = Hash::from_bytes(bytes);
+            for (spec, out) in [
+                ("{:.16}", format!("{:.16}", h)),
+                ("{:.0}", format!("{:.0}", h)),
+                ("{:.63}", format!("{:.63}", h)),
+                ("{:.64}", format!("{:.64}", h)),
+                ("{:80.70}", format!("{:80.70}", h)),
+                ("{:>72}", format!("{:>72}", h)),
+                ("{:*^10.5}", format!("{:*^10.5}", h)),
+                ("{:10}", format!("{:10}", h)),
+            ] {
+                if !out.contains(&want_hex) {
+                    v(rep, "display/format-spec", format!("Display with {} printed {:?}, which does not contain the 64 hex digits of {}", spec, out, want_hex));
+                }
+            }
             if dbg != format!("Hash(\"{}\")", want_hex) {
                 rep.seen("debug_forms", dbg.chars().take(12).collect::<String>());
             }
@@ -124,6 +141,29 @@ fn roundtrips(bytes: [u8; 32], rep: &mut Report, rng: &mut Rng) {
             let oh = Hash::from_bytes(o);
             if (h == oh) == differs || (h == o) == differs || (h == o[..]) == differs {
                 bad = Some("a value differing in many bytes compares equal".into());
+            }
+        }
+        // slices that start at the Hash's own storage but have another length (prefixes of
+        // as_bytes(); a longer view of a record that begins with the hash): identity of the start
+        // address says nothing about equality
+        {
+            #[repr(C)]
+            struct Record {
+                digest: Hash,
+                rest: [u8; 16],
+            }
+            let rec = Record { digest: h, rest: [bytes[0]; 16] };
+            let whole: &[u8] = unsafe { core::slice::from_raw_parts(&rec as *const Record as *const u8, 48) };
+            if rec.digest == *whole || rec.digest == whole[..33] {
+                bad = Some("equal to a longer slice that starts at the hash's own address".into());
+            }
+            if !(rec.digest == whole[..32]) {
+                bad = Some("not equal to the 32-byte slice over its own storage".into());
+            }
+            for len in [0usize, 1, 16, 31] {
+                if h == h.as_bytes()[..len] || h == h.as_slice()[..len] {
+                    bad = Some(format!("equal to the {}-byte prefix of its own storage", len));
+                }
             }
         }
         // slices of other lengths are never equal
